@@ -16,6 +16,12 @@ pub(crate) use listener::Listener;
 pub(crate) use listener::ListenerMessage;
 pub(crate) use session::Session;
 pub(crate) use session::SessionMessage;
+#[cfg(ractor_verif)]
+pub use session::verif_encode_frame;
+#[cfg(ractor_verif)]
+pub use session::verif_read_frame;
+#[cfg(ractor_verif)]
+pub use session::VerifFrameReader;
 
 /// A network port
 pub(crate) type NetworkPort = u16;
